@@ -57,7 +57,7 @@ func (c07) Info() core.Info {
 		Title: "ORDER BY returns a sorted permutation of the unordered result",
 		Level: "exploration",
 		Rule: "select lists with key, value, aliased number / text / Boolean expressions (int, float, upper, is_int, a prefix test), fields defined through other fields, and aggregate lists (sum over int, float and mixed text, count, min) grouped by a key prefix; every sequence of 1..2 (fixed stores: 3) distinct order fields x every asc/desc/default combination; stores = all stores of <= 4 pairs over keys {a,ab,b,c} x values {1,2,10,1.5} (duplicates, ties, int/float mixes) plus text-valued, 7- and 70-pair stores; row and batch (B in {1,2,32}). " +
-			"Oracle: the ordered rows are a permutation of the rows of the same statement without ORDER BY, every adjacent pair is non-decreasing under an independent comparator (lexicographic over the order fields; text byte-wise, numbers numerically across int/float, false < true, direction per field), and a lone `order by key asc` leaves the sequence unchanged. Non-trivial: >= 2 rows and the ordered sequence differs from the unordered one. Distinct: (statement, store, mode, B).",
+			"Oracle: the ordered rows are a permutation of the rows of the same statement without ORDER BY, every adjacent pair is non-decreasing under an independent comparator (lexicographic over the order fields; text byte-wise, numbers numerically across int/float, false < true, direction per field), and a lone `order by key asc` leaves the sequence unchanged; the same statement under `limit s, n` (three windows) returns that window of the sorted sequence (compared on the order columns, ties being interchangeable). Non-trivial: >= 2 rows and the ordered sequence differs from the unordered one. Distinct: (statement, store, mode, B).",
 		Assumptions: []string{"columns whose two values are of different kinds other than int/float (text vs number) are not compared (no documented order)"},
 	}
 }
@@ -360,6 +360,51 @@ func c07Judge(c *c07Case) (f *core.Failure, nontrivial bool, status, observed st
 		}
 	}
 	nontrivial = len(ord.Rows) >= 2 && !drv.EqualRows(base.Rows, ord.Rows)
+	// ORDER BY under LIMIT: the window [s, s+n) of the sorted sequence. Rows that
+	// tie on all order fields are interchangeable, so the window is compared on
+	// the order columns, and every returned row must be a row of the result.
+	if status == "ok" && len(ord.Rows) >= 2 {
+		keyOf := func(raw []any) string {
+			var b strings.Builder
+			for _, o := range c.Orders {
+				b.WriteString(ref.Canon(raw[o.Col]))
+				b.WriteByte('|')
+			}
+			return b.String()
+		}
+		for _, lim := range [][2]int{{0, 2}, {1, 2}, {len(ord.Rows) - 1, 3}} {
+			s3 := store.New(c.Store)
+			s3.NoLog = true
+			lq := fmt.Sprintf("%s limit %d, %d", c.query(), lim[0], lim[1])
+			lo := drv.Run(lq, s3, drv.Opt{Mode: c.Mode, B: c.B, KeepRaw: true})
+			lc := *c
+			mkl := func(sig, exp, obs string) *core.Failure {
+				return &core.Failure{Property: "C07", Leg: "sorted-permutation", Sig: sig, Case: lc.text() + fmt.Sprintf(" (with limit %d, %d)", lim[0], lim[1]), Data: core.MustJSON(lc), Expected: exp, Observed: obs}
+			}
+			if lo.Failed() {
+				return mkl("limited-"+lo.Status(), "rows "+fmt.Sprint(lim)+" of "+ord.Describe(), lo.Describe()), nontrivial, "", observed
+			}
+			hi := lim[0] + lim[1]
+			if hi > len(ord.Raw) {
+				hi = len(ord.Raw)
+			}
+			want := ord.Raw[lim[0]:hi]
+			bad := len(lo.Raw) != len(want)
+			left := map[string]int{}
+			for _, r := range ord.Rows {
+				left[r]++
+			}
+			for i := 0; !bad && i < len(want); i++ {
+				if keyOf(lo.Raw[i]) != keyOf(want[i]) || left[lo.Rows[i]] == 0 {
+					bad = true
+				}
+				left[lo.Rows[i]]--
+			}
+			if bad {
+				return mkl("limit-not-a-window-of-the-sorted-rows", fmt.Sprintf("rows [%d, %d) of %s", lim[0], lim[0]+lim[1], ord.Describe()), lo.Describe()), nontrivial, "", observed
+			}
+		}
+	}
 	return nil, nontrivial, status, observed
 }
 
